@@ -347,7 +347,13 @@ func vh_batch_value_count() {
 			vals = append(vals, int32(7))
 		}
 	}
-	b := &Batch{Type: LoggedBatch, context: &vCtx{done: make(chan struct{})}, Entries: []BatchEntry{{Stmt: "INSERT a", Args: vals}}}
+	entry := BatchEntry{Stmt: "INSERT a", Args: vals}
+	if vBool("values_from_a_binding_callback") {
+		// Batch.Bind: the values come from a callback that is handed the statement's metadata
+		bound := vals
+		entry = BatchEntry{Stmt: "INSERT a", binding: func(q *QueryInfo) ([]interface{}, error) { return bound, nil }}
+	}
+	b := &Batch{Type: LoggedBatch, context: &vCtx{done: make(chan struct{})}, Entries: []BatchEntry{entry}}
 	iter := c.executeBatch(b.context, b)
 	sentBatch := 0
 	for _, l := range vExecLog {
